@@ -25,6 +25,17 @@ class Fragments:
 
         i = bisect_right(self.begin_of_fragments, position) - 1
         L = len(string)
+        if L == 0:
+            # an empty fragment occupies no byte: it cannot collide with
+            # anything (not even lying inside of another fragment), it
+            # only extends the buffer up to its position
+            if position not in self.fragments:
+                self.begin_of_fragments.insert(i + 1, position)
+                self.fragments[position] = string
+
+            self.current_offset = position
+            return
+
         if self.fragments:
             # the closest previous fragment that holds at least one byte
             # (empty fragments occupy nothing, they cannot collide)
